@@ -181,11 +181,19 @@ func runStress(c stressCase) stressResult {
 
 func genStress() *rapid.Generator[stressCase] {
 	return rapid.Custom(func(t *rapid.T) stressCase {
+		per := rapid.IntRange(50, 400).Draw(t, "perProducer")
+		groups := rapid.IntRange(1, 4).Draw(t, "groups")
+		if rapid.IntRange(0, 5).Draw(t, "long") == 0 {
+			// a long history in one Serve cycle over many groups that keep going idle and busy
+			// again (thousands of completed work items), with group 0 staying hot
+			per *= 8
+			groups = rapid.SampledFrom([]int{4, 48, 200}).Draw(t, "manygroups")
+		}
 		return stressCase{
 			Workers:   rapid.SampledFrom([]int{1, 2, 3, 4, 8, 16, 32}).Draw(t, "workers"),
 			Producers: rapid.IntRange(2, 8).Draw(t, "producers"),
-			PerProd:   rapid.IntRange(50, 400).Draw(t, "perProducer"),
-			Groups:    rapid.IntRange(1, 4).Draw(t, "groups"),
+			PerProd:   per,
+			Groups:    groups,
 			Yield:     rapid.SampledFrom([]int{0, 50, 250, 600}).Draw(t, "yield"),
 			Requests:  rapid.IntRange(0, 200).Draw(t, "requests"),
 		}
